@@ -24,8 +24,11 @@ RULES = {
     "`if K not in M: M[K] = E` keys on everything loop-varying that E reads - the answer to 'is this tensor backed by the "
     "file being replaced' depends on the tensor's full path, not on its relative location alone, so tensors are "
     "invalidated exactly when their own file was replaced",
+    "R7": "a short source is an error, not a short file: every normal exit of ExternalTensor.tofile passes the test of the "
+    "remaining-bytes loop (the loop that raises OSError when the source ends early), so a kernel-copy fast path cannot "
+    "return with bytes still missing - otherwise the save succeeds with a truncated data file and replaces the good one",
 }
-FLOORS = {"R1": 5, "R2": 2, "R3": 4, "R4": 3, "R5": 1, "R6": 1}
+FLOORS = {"R1": 5, "R2": 2, "R3": 4, "R4": 3, "R5": 1, "R6": 1, "R7": 1}
 EXPLANATION = (
     "Path-taint analysis (temp-derived vs destination-derived) over every file-system call of the single-file "
     "writer, dominator queries for the write → replace → invalidate ordering, try/finally structure of the "
@@ -398,7 +401,24 @@ def rule_r6(ctx):
                       construct=f"memo {memo} key misses {missing}")
 
 
+def rule_r7(ctx):
+    f = ctx.repo.func("onnx_ir._core:ExternalTensor.tofile")
+    cfg = CFG(f.node)
+    # the completeness loop: `while <remaining> > 0:` whose body raises when a read returns nothing
+    loops = [n for n in own_nodes(f.node) if isinstance(n, ast.While) and isinstance(n.test, ast.Compare) and isinstance(n.test.ops[0], (ast.Gt, ast.NotEq))
+             and any(isinstance(x, ast.Raise) for st in n.body for x in ast.walk(st))]
+    ctx.require(len(loops) == 1, f"ExternalTensor.tofile: remaining-bytes loop not found ({len(loops)} candidates)")
+    tn = [n for n in cfg.node_of(loops[0]) if n.kind == "test"][0]
+    ok = not cfg.path_exists_avoiding(cfg.entry, {cfg.exit.id}, {tn.id}, exc=False)
+    early = [r for r in own_nodes(f.node) if isinstance(r, ast.Return)]
+    ctx.check("R7", "ExternalTensor.tofile: every normal exit passes the remaining-bytes check", ok, f, early[0] if early and not ok else loops[0],
+              "tofile can return without reaching the loop that verifies that all bytes were copied (and raises when the source is too short): "
+              "a source file that ends early yields a short data file and a successful save, which then replaces the existing destination",
+              how="the test of the remaining-bytes loop lies on every path from entry to a normal exit", construct="tofile exit bypasses the remaining-bytes check")
+
+
 def run(ctx):
+    rule_r7(ctx)
     rule_r6(ctx)
     rule_r1_r2_r3(ctx)
     rule_r4(ctx)
